@@ -1,7 +1,7 @@
 //! deno.json parser
 
 use crate::parser::traits::{ParseError, Parser};
-use crate::parser::types::{PackageInfo, RegistryType, is_closed_string};
+use crate::parser::types::{PackageInfo, RegistryType, is_closed_string, json_string_value};
 use tracing::warn;
 
 /// Parser for deno.json files
@@ -162,13 +162,9 @@ impl DenoJsonParser {
         }
     }
 
-    /// Get the string value from a string node (removes quotes)
+    /// Get the string value from a string node (removes quotes, decodes escapes)
     fn get_string_value(&self, node: tree_sitter::Node, content: &str) -> String {
-        let text = &content[node.byte_range()];
-        text.trim()
-            .trim_start_matches('"')
-            .trim_end_matches('"')
-            .to_string()
+        json_string_value(&content[node.byte_range()])
     }
 }
 
